@@ -225,7 +225,9 @@ impl Read for Source {
             return Ok(0);
         }
         if buf.is_empty() {
-            log.empty_offers += 1;
+            if !prefill {
+                log.empty_offers += 1;
+            }
             return Ok(0);
         }
         let end = self.end();
@@ -375,7 +377,7 @@ pub fn build_init(
         Ctor::BufReader(cap) => {
             let prefill = src.prefill.clone();
             *prefill.borrow_mut() = true;
-            let mut br = BufReader::with_capacity(cap.max(1), src);
+            let mut br = BufReader::with_capacity(cap, src);
             let _ = br.fill_buf();
             *prefill.borrow_mut() = false;
             Init::Buf(br)
@@ -410,7 +412,7 @@ pub fn build_reader_consumed(
         Ctor::BufReader(cap) => {
             let prefill = src.prefill.clone();
             *prefill.borrow_mut() = true;
-            let mut br = BufReader::with_capacity(cap.max(1), src);
+            let mut br = BufReader::with_capacity(cap, src);
             let _ = br.fill_buf();
             *prefill.borrow_mut() = false;
             skipped = consume.min(br.buffer().len());
@@ -471,6 +473,7 @@ pub fn ctor_strategy() -> impl Strategy<Value = Ctor> {
         3 => Just(Ctor::FromRead),
         2 => Just(Ctor::Boxed),
         3 => (1usize..=64).prop_map(Ctor::BufReader),
+        1 => Just(Ctor::BufReader(0)),
     ]
 }
 
